@@ -33,7 +33,16 @@ XML_LISTS = (NS + "assetAdministrationShells", NS + "submodels", NS + "conceptDe
 DOCUMENTED = (KeyError, ValueError, TypeError, model.AASConstraintViolation)
 
 OPS = ("delete", "null", "wrongtype", "enum", "empty", "overlong", "forbidden", "xsliteral", "base64",
-       "modeltype", "dupid", "wronglist")
+       "modeltype", "dupid", "wronglist", "harmless")
+# "harmless" is the 13th operator: it changes the text of the document without changing its content (XML comments,
+# processing instructions and white space between elements / inside text; JSON insignificant white space, member
+# order, string escapes) - both readers must return exactly the undamaged result
+
+
+class RawText:
+    """a document that is already serialised (text with a particular lexical form)"""
+    def __init__(self, data):
+        self.data = data
 
 ENUM_KEYS = {"type", "kind", "assetKind", "entityType", "direction", "state", "valueType", "valueTypeListElement",
              "typeValueListElement", "dataType", "orderRelevant"}
@@ -221,6 +230,7 @@ def json_applicable(doc, path):
         ops.append("enum")
     if isinstance(v, dict) and len(path) == 2:
         ops.append("wronglist")
+        ops.append("harmless")
     if isinstance(v, dict) and "idShort" in v and isinstance(parent, list) and len(parent) > 1 and len(path) > 2:
         ops.append("dupid")
     return ops
@@ -229,6 +239,8 @@ def json_applicable(doc, path):
 def json_damage(doc, path, op, variant, other_id=None):
     """returns a damaged deep copy of doc, or None if not applicable"""
     d = copy.deepcopy(doc)
+    if op == "harmless":
+        return RawText(json_relex(d, variant))
     parent = _jget(d, path[:-1])
     key = path[-1]
     v = parent[key]
@@ -297,6 +309,47 @@ def json_damage(doc, path, op, variant, other_id=None):
     return d
 
 
+def json_relex(d, variant):
+    """another JSON text of the same document"""
+    def rev(v):
+        if isinstance(v, dict):
+            return {k: rev(v[k]) for k in reversed(list(v))}
+        if isinstance(v, list):
+            return [rev(x) for x in v]
+        return v
+    k = variant % 7
+    if k == 0:
+        return json.dumps(d, indent=2)
+    if k == 1:
+        return json.dumps(d, indent="\t", separators=(" ,\r\n ", "  :\t"))
+    if k == 2:
+        return " \n\t\r " + json.dumps(d) + " \r\n\t "
+    if k == 3:
+        return json.dumps(rev(d))                      # member order of every object reversed (modelType last ...)
+    if k == 4:
+        return json.dumps(d, sort_keys=True)
+    if k == 5:
+        return json.dumps(d, ensure_ascii=False)
+    # every string character as a \uXXXX escape
+    text = json.dumps(d, ensure_ascii=True)
+    out, instr, i = [], False, 0
+    while i < len(text):
+        c = text[i]
+        if instr and c == "\\":
+            out.append(text[i:i + 2] if text[i + 1] != "u" else text[i:i + 6])
+            i += 2 if text[i + 1] != "u" else 6
+            continue
+        if c == '"':
+            instr = not instr
+            out.append(c)
+        elif instr:
+            out.append("\\u%04x" % ord(c))
+        else:
+            out.append(c)
+        i += 1
+    return "".join(out)
+
+
 # ------------------------------------------------------------------ XML damage
 
 def xml_nodes(item, base):
@@ -331,7 +384,7 @@ def xml_applicable(root, path):
     parent = el.getparent()
     name = _lname(el)
     leaf = len(el) == 0
-    ops = ["delete", "null", "wrongtype", "modeltype"]
+    ops = ["delete", "null", "wrongtype", "modeltype", "harmless"]
     if leaf and el.text is not None:
         ops += ["empty", "overlong"]
         if name in PATTERN_KEYS:
@@ -358,6 +411,8 @@ def xml_damage(root, path, op, variant, other_id=None):
     el = _xget(r, path)
     parent = el.getparent()
     name = _lname(el)
+    if op == "harmless":
+        return xml_relex(r, el, parent, variant)
     if op == "delete":
         parent.remove(el)
     elif op == "null":
@@ -430,6 +485,37 @@ def xml_damage(root, path, op, variant, other_id=None):
     return r
 
 
+def xml_relex(r, el, parent, variant):
+    """inserts a comment / processing instruction / white space at or inside node el; the content is unchanged"""
+    def junk(k):
+        return etree.Comment(" note ") if k % 2 == 0 else etree.ProcessingInstruction("verif", "x=1")
+    k = variant % 10
+    if k in (0, 1):                                    # before the node (between list items / elements)
+        el.addprevious(junk(k))
+    elif k in (2, 3):                                  # after the node
+        el.addnext(junk(k))
+    elif k in (4, 5):                                  # inside: first child of a container, inside the text of a leaf
+        j = junk(k)
+        if len(el) > 0 or not el.text:
+            el.insert(0, j)
+        else:
+            t = el.text
+            cut = (variant // 10) % (len(t) + 1)
+            el.text, j.tail = t[:cut], t[cut:]
+            el.insert(0, j)
+    elif k == 6:                                       # last child / at the end of the text
+        el.append(junk(variant // 10))
+    elif k == 7:                                       # directly under the root, before the first list
+        r.insert(0, junk(variant // 10))
+    elif k == 8:                                       # after the last list and around the root element
+        r.append(junk(variant // 10))
+        r.addprevious(etree.Comment(" before the root "))
+        return RawText(etree.tostring(r.getroottree()))
+    else:                                              # white space between all elements
+        return RawText(etree.tostring(r, pretty_print=True))
+    return r
+
+
 # ------------------------------------------------------------------ the oracle on one damaged document
 
 def classify(e):
@@ -441,7 +527,7 @@ def documented(e):
     return isinstance(e, DOCUMENTED)
 
 
-def oracle(fmt, data, base_canon, damaged_ids, all_ids, dup_rule=None):
+def oracle(fmt, data, base_canon, damaged_ids, all_ids, dup_rule=None, harmless=False):
     """Runs failsafe and strict readers on `data`.
     base_canon: {id: canonical form} of the undamaged read;  damaged_ids: ids of identifiables containing
     the damage (their fate is free);  all_ids: ids present in the undamaged document.
@@ -470,6 +556,10 @@ def oracle(fmt, data, base_canon, damaged_ids, all_ids, dup_rule=None):
             extra = [i for i in c1 if i not in all_ids and i not in (dup_rule or ())]
             if extra:
                 fail = ("extra-object", f"failsafe result contains identifiers {extra[:3]!r} that are not in the document")
+    if fail is None and harmless and k2 != "ok":
+        fail = ("harmless-strict-raises:" + classify(r2), "strict read of a document that differs from a valid one only "
+                f"lexically (comment / processing instruction / white space / member order) raised "
+                f"{type(r2).__name__}: {str(r2)[:300]}")
     if fail is None:
         if k2 == "ok":
             c2 = canon_of(r2)
